@@ -185,6 +185,8 @@ def handleSpecial (stream : String) (args : List String) : String :=
   | "rtcpmarshal", _ => "noncompared"
   | "sctpflood", _ => "noncompared"
   | "rtprecv", _ => "noncompared"
+  | "candutf", _ => "noncompared"
+  | "rtpchain", _ => "noncompared"
   | "rtpflood", _ => "noncompared"
   | "iceflood", _ => "noncompared"
   | "mediaflood", _ => "noncompared"
